@@ -52,6 +52,8 @@ var c05Sources = []string{
 	`{a: {b: 1, c: 2}, d: [1, 2]}`,
 	`{1, 2, 3}`,
 	`[f(), g()]`,
+	"m := {\n\t\"alpha\": f(),\n\t\"beta\": g(),\n\t\"gamma\": 3,\n\t\"beta\": 5,\n}\nm",
+	"{\n a: 1,\n b: {\n  c: f(),\n  d: g(),\n },\n}",
 }
 
 // HarnessC05CompileUnderEveryMapOrder: compiling the same syntax tree yields
